@@ -6,19 +6,19 @@ From FS Require Import Sexp Vars VarsProofs.
    Theorems about inline_text speak about one piece of SQL text proper; plain_is_text lifts them to whole statements without
    literals/comments, literal_protected says what happens around a literal. *)
 
-(* The sequential regex substitution of variables.py equals the one-pass expansion "every $word
-   stands for the value of the variable of that name (any letter case)", for every text built from
-   '$'-free literal segments and references, every set of word-named variables - including names
-   that are prefixes of each other - with '$'-free values. *)
+(* The one-pass regex substitution of variables.py (after fix 7b219e4) IS the specification "every $word stands for the value of
+   the variable of that name (any letter case)", for every text built from '$'-free literal segments and references and for EVERY set
+   of variables - names that are prefixes of each other, values containing '$' signs or things that look like references (a value is
+   inserted as it is and never scanned again). *)
 Theorem inline_is_expand : forall vs segs,
-  vars_ok vs = true -> wf segs = true -> forallb (defined vs) segs = true ->
+  wf segs = true -> forallb (defined vs) segs = true ->
   inline_text vs (render segs) = inl (render (expand vs segs)).
 Proof. exact inline_is_expand_l. Qed.
 Print Assumptions inline_is_expand.
 
 (* the first undefined reference raises "Session variable '$NAME' does not exist" (upper-cased) *)
 Theorem undefined_raises_first : forall vs pre w post,
-  vars_ok vs = true -> wf (pre ++ Ref w :: post) = true ->
+  wf (pre ++ Ref w :: post) = true ->
   forallb (defined vs) pre = true -> lookup vs w = None ->
   inline_text vs (render (pre ++ Ref w :: post)) = inr (upper (dollar :: w)).
 Proof. exact undefined_raises_l. Qed.
@@ -68,10 +68,15 @@ Theorem set_defines : forall vs n v, In (n, v) (vset vs n v).
 Proof. exact vset_lookup. Qed.
 Print Assumptions set_defines.
 
+Example value_with_dollars :
+  inline_text [(lit "P", lit "'$HOME/x $p'"); (lit "HOME", lit "7")] (lit "select $p, $home") = inl (lit "select '$HOME/x $p', 7").
+Proof. exact value_with_dollars_l. Qed.
+Print Assumptions value_with_dollars.
+
 Example inline_holds_somewhere :
   let vs := [(lit "VAR1", lit "5"); (lit "VAR10", lit "'x y'"); (lit "A_B", lit "1 + 2")] in
   let segs := [Lit (lit "select "); Ref (lit "var10"); Lit (lit ", "); Ref (lit "Var1"); Lit (lit "+"); Ref (lit "a_b")] in
-  vars_ok vs = true /\ wf segs = true /\ forallb (defined vs) segs = true /\
+  wf segs = true /\ forallb (defined vs) segs = true /\
   inline_text vs (render segs) = inl (lit "select 'x y', 5+1 + 2").
 Proof. exact inline_nonvacuous. Qed.
 Print Assumptions inline_holds_somewhere.
